@@ -527,8 +527,332 @@ Section Bodies.
 End Bodies.
 
 (* =========================================================================== *)
-(* 2. the net only grows: a frame relation preserved by every function           *)
+(* 2. a frame rule for the whole mechanism, and: the net only grows              *)
 (* =========================================================================== *)
+
+Lemma nbind_inv : forall A B (m : NM A) (k : A -> NM B) s b s',
+    nbind m k s = Ok (b, s') -> exists a s1, m s = Ok (a, s1) /\ k a s1 = Ok (b, s').
+Proof.
+  intros A B m k s b s' H. unfold nbind in H.
+  destruct (m s) as [[a s1]| | |]; try discriminate. eauto.
+Qed.
+
+(* [fpres R m]: every successful run of m relates the state before to the state after *)
+Definition fpres (R : NS -> NS -> Prop) {A} (m : NM A) : Prop :=
+  forall s a s', m s = Ok (a, s') -> R s s'.
+
+(* what a relation has to satisfy to be preserved by every function of the generator and of the
+   scheduler's mutual block: it is a preorder and every primitive state update respects it.
+   (The list below is the complete list of state updates in NetModel.v's generator and block.) *)
+Record frame_ok (R : NS -> NS -> Prop) : Prop := {
+  fr_refl : forall s, R s s;
+  fr_trans : forall a b c, R a b -> R b c -> R a c;
+  (* the net *)
+  fr_create_place : fpres R create_place;
+  fr_create_transition : fpres R create_transition;
+  fr_add_input : forall p t, fpres R (add_input p t);
+  fr_add_output : forall p t, fpres R (add_output p t);
+  fr_add_callback : forall t c, fpres R (add_callback t c);
+  fr_place_add : forall p, fpres R (place_add p);
+  fr_fire_trans : forall t, fpres R (fire_trans t);
+  fr_remove_place : forall p, fpres R (remove_place p);
+  fr_cbs : forall s index f, R s (s <| ns_cbs := upd index f (ns_cbs s) |>);
+  (* API objects, identifiers *)
+  fr_fresh_uuid : fpres R fresh_uuid;
+  fr_new_api : forall a, fpres R (new_api a);
+  fr_set_api : forall i f, fpres R (set_api i f);
+  fr_place_dict : forall s u p, R s (s <| ns_place_dict := (u, p) :: ns_place_dict s |>);
+  fr_tid : forall s, R s (s <| ns_tid := S (ns_tid s) |>);
+  fr_sid : forall s, R s (s <| ns_sid := S (ns_sid s) |>);
+  (* scheduler and environment bookkeeping *)
+  fr_log : forall es, fpres R (nlog es);
+  fr_counters : forall s v, R s (s <| ns_counters := v |>);
+  fr_q : forall s v, R s (s <| ns_q := v |>);
+  fr_awaited : forall s v, R s (s <| ns_awaited := v |>);
+  fr_running : forall s v, R s (s <| ns_running := v |>);
+  fr_pending : forall s v, R s (s <| ns_pending := v |>);
+  fr_nss : forall s, R s (s <| ns_nss := S (ns_nss s) |>);
+  fr_nnot : forall s, R s (s <| ns_nnot := S (ns_nnot s) |>)
+}.
+Arguments fr_refl {R} _.
+Arguments fr_trans {R} _.
+Arguments fr_create_place {R} _.
+Arguments fr_create_transition {R} _.
+Arguments fr_add_input {R} _.
+Arguments fr_add_output {R} _.
+Arguments fr_add_callback {R} _.
+Arguments fr_place_add {R} _.
+Arguments fr_fire_trans {R} _.
+Arguments fr_remove_place {R} _.
+Arguments fr_cbs {R} _.
+Arguments fr_fresh_uuid {R} _.
+Arguments fr_new_api {R} _.
+Arguments fr_set_api {R} _.
+Arguments fr_place_dict {R} _.
+Arguments fr_tid {R} _.
+Arguments fr_sid {R} _.
+Arguments fr_log {R} _.
+Arguments fr_counters {R} _.
+Arguments fr_q {R} _.
+Arguments fr_awaited {R} _.
+Arguments fr_running {R} _.
+Arguments fr_pending {R} _.
+Arguments fr_nss {R} _.
+Arguments fr_nnot {R} _.
+
+
+Section FrameCombinators.
+  Variable R : NS -> NS -> Prop.
+  Variable FR : frame_ok R.
+
+  Lemma fpres_ext : forall A (m m' : NM A), (forall s, m s = m' s) -> fpres R m' -> fpres R m.
+  Proof. intros A m m' E H s a s' H1. rewrite E in H1. eauto. Qed.
+
+  Lemma fpres_ret : forall A (a : A), fpres R (nret a).
+  Proof. intros A a s a' s' H. inversion H. apply (fr_refl FR). Qed.
+
+  Lemma fpres_get : fpres R nget.
+  Proof. intros s a s' H. inversion H. apply (fr_refl FR). Qed.
+
+  Lemma fpres_fail : forall A (r : res A), fpres R (nfail r).
+  Proof. intros A r s a s' H. unfold nfail in H. destruct r; inversion H. apply (fr_refl FR). Qed.
+
+  Lemma fpres_bind : forall A B (m : NM A) (k : A -> NM B),
+      fpres R m -> (forall a, fpres R (k a)) -> fpres R (nbind m k).
+  Proof.
+    intros A B m k Hm Hk s b s' H. apply nbind_inv in H. destruct H as (a & s1 & H1 & H2).
+    eapply (fr_trans FR); [eapply Hm|eapply Hk]; eauto.
+  Qed.
+
+  Lemma fpres_mod : forall f, (forall s, R s (f s)) -> fpres R (nmod f).
+  Proof. intros f Hf s a s' H. inversion H. apply Hf. Qed.
+
+  Lemma fpres_nfor : forall A (l : list A) f, (forall x, fpres R (f x)) -> fpres R (nfor l f).
+  Proof.
+    intros A l f Hf. induction l as [|x l IH]; cbn [nfor].
+    - apply fpres_ret.
+    - apply fpres_bind; auto.
+  Qed.
+
+  Lemma fpres_get_api : forall i, fpres R (get_api i).
+  Proof.
+    intros i s a s' H. unfold get_api in H. destruct (nth_error (ns_apis s) i); inversion H.
+    apply (fr_refl FR).
+  Qed.
+End FrameCombinators.
+Arguments fpres_ret {R} FR.
+Arguments fpres_get {R} FR.
+Arguments fpres_fail {R} FR.
+Arguments fpres_bind {R} FR.
+Arguments fpres_nfor {R} FR.
+Arguments fpres_get_api {R} FR.
+
+
+Ltac fpres_step FR :=
+  match goal with
+  | |- fpres _ (nbind _ _) => apply (fpres_bind FR); [| intro]
+  | |- fpres _ (nret _) => apply (fpres_ret FR)
+  | |- fpres _ nget => apply (fpres_get FR)
+  | |- fpres _ (nfail _) => apply (fpres_fail FR)
+  | |- fpres _ (get_api _) => apply (fpres_get_api FR)
+  | |- fpres _ (nfor _ _) => apply (fpres_nfor FR); intro
+  | |- fpres _ (nmod _) =>
+    apply fpres_mod; intro; cbv beta;
+    first [ apply (fr_cbs FR) | apply (fr_place_dict FR) | apply (fr_tid FR) | apply (fr_sid FR)
+          | apply (fr_counters FR) | apply (fr_q FR) | apply (fr_awaited FR) | apply (fr_running FR)
+          | apply (fr_pending FR) | apply (fr_nss FR) | apply (fr_nnot FR) ]
+  | |- fpres _ create_place => apply (fr_create_place FR)
+  | |- fpres _ create_transition => apply (fr_create_transition FR)
+  | |- fpres _ (add_input _ _) => apply (fr_add_input FR)
+  | |- fpres _ (add_output _ _) => apply (fr_add_output FR)
+  | |- fpres _ (add_callback _ _) => apply (fr_add_callback FR)
+  | |- fpres _ (place_add _) => apply (fr_place_add FR)
+  | |- fpres _ (fire_trans _) => apply (fr_fire_trans FR)
+  | |- fpres _ (remove_place _) => apply (fr_remove_place FR)
+  | |- fpres _ fresh_uuid => apply (fr_fresh_uuid FR)
+  | |- fpres _ (new_api _) => apply (fr_new_api FR)
+  | |- fpres _ (set_api _ _) => apply (fr_set_api FR)
+  | |- fpres _ (nlog _) => apply (fr_log FR)
+  | |- fpres _ (if ?b then _ else _) => destruct b
+  | |- fpres _ (match ?x with _ => _ end) => destruct x
+  | |- fpres _ _ => solve [auto with pres]
+  end.
+Ltac fpres_tac FR := cbv zeta; repeat (fpres_step FR).
+
+Section Frame.
+  Variable R : NS -> NS -> Prop.
+  Variable FR : frame_ok R.
+
+  Lemma fpres_pop_cb : forall i, fpres R (pop_cb i).
+  Proof. intros. unfold pop_cb. fpres_tac FR. Qed.
+  Lemma fpres_set_counters : forall u d, fpres R (set_counters u d).
+  Proof. intros. unfold set_counters. fpres_tac FR. Qed.
+  Lemma fpres_generate_service : forall n ins at_ ctx t1 t2 il,
+      fpres R (generate_service n ins at_ ctx t1 t2 il).
+  Proof. intros. unfold generate_service. fpres_tac FR. Qed.
+  Lemma fpres_generate_empty_parallel_loop : forall t1 t2, fpres R (generate_empty_parallel_loop t1 t2).
+  Proof. intros. unfold generate_empty_parallel_loop. fpres_tac FR. Qed.
+  Hint Resolve fpres_pop_cb fpres_set_counters fpres_generate_service
+       fpres_generate_empty_parallel_loop : pres.
+
+  (* ---- the generator ---- *)
+  Variable tasks : list task.
+
+  Lemma fpres_gen_go : forall gs n ctx tn pre first last il,
+      (forall ctx tn path s t1 t2 il, fpres R (gs ctx tn path s t1 t2 il)) ->
+      forall l i prev acc, fpres R (gen_go gs n ctx tn pre first last il i l prev acc).
+  Proof.
+    intros gs n ctx tn pre first last il Hgs. induction l as [|s r IH]; intros i prev acc.
+    - cbn [gen_go]. fpres_tac FR.
+    - cbn [gen_go]. fold (gen_go gs n ctx tn pre first last il). fpres_tac FR.
+  Qed.
+
+  Lemma fpres_gen_calls : forall gtc ctx tn path t1 sync il,
+      (forall c at_ ctx t1 t2 il, fpres R (gtc c at_ ctx t1 t2 il)) ->
+      forall l i, fpres R (gen_calls gtc ctx tn path t1 sync il i l).
+  Proof.
+    intros gtc ctx tn path t1 sync il Hg. induction l as [|c r IH]; intro i.
+    - cbn [gen_calls]. fpres_tac FR.
+    - cbn [gen_calls]. fold (gen_calls gtc ctx tn path t1 sync il). fpres_tac FR.
+  Qed.
+  Hint Resolve fpres_gen_go fpres_gen_calls : pres.
+
+  Lemma fpres_gstmt_body : forall gss gtc,
+      (forall ctx tn pre ss first last il, fpres R (gss ctx tn pre ss first last il)) ->
+      (forall c at_ ctx t1 t2 il, fpres R (gtc c at_ ctx t1 t2 il)) ->
+      forall ctx tn path s t1 t2 il, fpres R (gstmt_body gss gtc ctx tn path s t1 t2 il).
+  Proof.
+    intros gss gtc H1 H2 ctx tn path s t1 t2 il. unfold gstmt_body. fpres_tac FR.
+  Qed.
+
+  Lemma fpres_gtc_body : forall gss,
+      (forall ctx tn pre ss first last il, fpres R (gss ctx tn pre ss first last il)) ->
+      forall c at_ ctx t1 t2 il, fpres R (gtc_body tasks gss c at_ ctx t1 t2 il).
+  Proof. intros gss H1 c at_ ctx t1 t2 il. unfold gtc_body. fpres_tac FR. Qed.
+
+  Theorem frame_generate : forall f,
+      (forall ctx tn pre ss first last il, fpres R (generate_statements tasks f ctx tn pre ss first last il)) /\
+      (forall ctx tn path s t1 t2 il, fpres R (generate_stmt tasks f ctx tn path s t1 t2 il)) /\
+      (forall c at_ ctx t1 t2 il, fpres R (generate_task_call tasks f c at_ ctx t1 t2 il)).
+  Proof.
+    induction f as [|f (IH1 & IH2 & IH3)].
+    - split; [|split]; intros; intros ? ? ? HH; discriminate HH.
+    - split; [|split]; intros.
+      + eapply fpres_ext; [intro; apply generate_statements_S|]. apply fpres_gen_go. exact IH2.
+      + eapply fpres_ext; [intro; apply generate_stmt_S|]. apply fpres_gstmt_body; assumption.
+      + eapply fpres_ext; [intro; apply generate_task_call_S|]. apply fpres_gtc_body; assumption.
+  Qed.
+
+  Theorem frame_generate_petri_net : forall f, fpres R (generate_petri_net tasks f) ->
+                                               fpres R (generate_petri_net tasks f).
+  Proof. auto. Qed.
+
+  (* ---- the scheduler block ---- *)
+  Variable env : envcfg.
+
+  Lemma fpres_new_test_or_uuid : forall b, fpres R (new_test_or_uuid b).
+  Proof. intro b. unfold new_test_or_uuid. fpres_tac FR. Qed.
+  Hint Resolve fpres_new_test_or_uuid : pres.
+  Lemma fpres_substitute_loop_indexes : forall ai, fpres R (substitute_loop_indexes tasks ai).
+  Proof. intro ai. unfold substitute_loop_indexes. fpres_tac FR. Qed.
+  Lemma fpres_get_loop_limit : forall lim ctx, fpres R (get_loop_limit env lim ctx).
+  Proof. intros. unfold get_loop_limit. fpres_tac FR. Qed.
+  Lemma fpres_check_expression : forall e ctx, fpres R (check_expression env e ctx).
+  Proof. intros. unfold check_expression. fpres_tac FR. Qed.
+  Hint Resolve fpres_substitute_loop_indexes fpres_get_loop_limit fpres_check_expression : pres.
+
+  Lemma fpres_parloop_generate : forall v lim ctx c csite ph t1 t2,
+      fpres R (parloop_generate tasks env v lim ctx c csite ph t1 t2).
+  Proof.
+    intros. unfold parloop_generate.
+    pose proof (proj2 (proj2 (frame_generate 200))) as Hg.
+    fpres_tac FR.
+  Qed.
+  Hint Resolve fpres_parloop_generate : pres.
+
+  Lemma fpres_each_with : forall rc index, (forall c, fpres R (rc c)) ->
+      forall h i, fpres R (each_with rc index h i).
+  Proof.
+    intros rc index Hrc. induction h as [|h IH]; intro i.
+    - cbn [each_with]. fpres_tac FR.
+    - cbn [each_with]. fold (each_with rc index). fpres_tac FR.
+  Qed.
+  Hint Resolve fpres_each_with : pres.
+
+  Lemma fpres_scan_with : forall rc snap, (forall c, fpres R (rc c)) ->
+      forall g index, fpres R (scan_with rc snap g index).
+  Proof.
+    intros rc snap Hrc. induction g as [|g IH]; intro index.
+    - cbn [scan_with]. fpres_tac FR.
+    - cbn [scan_with]. fold (scan_with rc snap). fpres_tac FR.
+  Qed.
+
+  Lemma fpres_run_cb_body : forall ev_ ots otf oss osf sfe,
+      fpres R ev_ -> (forall a, fpres R (ots a)) -> (forall a, fpres R (otf a)) ->
+      (forall a, fpres R (oss a)) -> (forall a, fpres R (osf a)) -> (forall e, fpres R (sfe e)) ->
+      forall c, fpres R (run_cb_body tasks env ev_ ots otf oss osf sfe c).
+  Proof.
+    intros ev_ ots otf oss osf sfe H1 H2 H3 H4 H5 H6 c. unfold run_cb_body, await_and_fire.
+    destruct c; try solve [fpres_tac FR].
+    apply fpres_ext with (m' := parloop_generate tasks env v lim ctx c csite ph t1 t2 ;;~ ev_);
+      [intro; apply parloop_then_eq|]. fpres_tac FR.
+  Qed.
+
+  Lemma fpres_ots_body : forall nu, (forall k a b, fpres R (nu k a b)) -> forall ai, fpres R (ots_body tasks nu ai).
+  Proof. intros nu H ai. unfold ots_body. fpres_tac FR. Qed.
+  Lemma fpres_oss_body : forall nu, (forall k a b, fpres R (nu k a b)) -> forall ai, fpres R (oss_body tasks nu ai).
+  Proof. intros nu H ai. unfold oss_body, rebind_uuid. fpres_tac FR. Qed.
+  Lemma fpres_otf_body : forall nu, (forall k a b, fpres R (nu k a b)) -> forall ai, fpres R (otf_body nu ai).
+  Proof. intros nu H ai. unfold otf_body. fpres_tac FR. Qed.
+
+  Lemma fpres_notify_each : forall er k ai, (forall k a, fpres R (er k a)) ->
+      forall h i, fpres R (notify_each er k ai h i).
+  Proof.
+    intros er k ai Her. induction h as [|h IH]; intro i.
+    - cbn [notify_each]. fpres_tac FR.
+    - cbn [notify_each]. fold (notify_each er k ai). fpres_tac FR.
+  Qed.
+  Hint Resolve fpres_notify_each : pres.
+  Lemma fpres_nu_body : forall er, (forall k a, fpres R (er k a)) -> forall k ai b, fpres R (nu_body er k ai b).
+  Proof. intros er H k ai b. unfold nu_body. fpres_tac FR. Qed.
+  Lemma fpres_er_body : forall sfe, (forall e, fpres R (sfe e)) -> forall k ai, fpres R (er_body env sfe k ai).
+  Proof. intros sfe H k ai. unfold er_body. fpres_tac FR. Qed.
+  Lemma fpres_sfe_body : forall lfe, (forall e, fpres R (lfe e)) -> forall ev, fpres R (sfe_body lfe ev).
+  Proof. intros lfe H ev. unfold sfe_body. fpres_tac FR. Qed.
+  Lemma fpres_lfe_body : forall ev_, fpres R ev_ -> forall ev, fpres R (lfe_body ev_ ev).
+  Proof. intros ev_ H ev. unfold lfe_body. fpres_tac FR. Qed.
+
+  (* the frame rule: a relation respected by the primitive updates is respected by every
+     function of the mutual block, at every fuel *)
+  Theorem frame_block : forall f,
+      fpres R (evaluate tasks env f) /\
+      (forall c, fpres R (run_cb tasks env f c)) /\
+      (forall a, fpres R (on_task_started tasks env f a)) /\
+      (forall a, fpres R (on_service_started tasks env f a)) /\
+      (forall a, fpres R (on_service_finished tasks env f a)) /\
+      (forall a, fpres R (on_task_finished tasks env f a)) /\
+      (forall k a b, fpres R (notify_user tasks env f k a b)) /\
+      (forall k a, fpres R (engine_reacts tasks env f k a)) /\
+      (forall ev, fpres R (sched_fire_event tasks env f ev)) /\
+      (forall ev, fpres R (logic_fire_event tasks env f ev)).
+  Proof.
+    induction f as [|f (I1 & I2 & I3 & I4 & I5 & I6 & I7 & I8 & I9 & I10)].
+    - repeat (split; [intros; intros ? ? ? HH; discriminate HH|]). intros; intros ? ? ? HH; discriminate HH.
+    - split; [|split; [|split; [|split; [|split; [|split; [|split; [|split; [|split]]]]]]]]; intros.
+      + intros s a s' HH. rewrite evaluate_S in HH. eapply fpres_scan_with; eauto.
+      + eapply fpres_ext; [intro; apply run_cb_S|]. apply fpres_run_cb_body; assumption.
+      + eapply fpres_ext; [intro; apply on_task_started_S|]. apply fpres_ots_body; assumption.
+      + eapply fpres_ext; [intro; apply on_service_started_S|]. apply fpres_oss_body; assumption.
+      + eapply fpres_ext; [intro; apply on_service_finished_S|]. apply I7.
+      + eapply fpres_ext; [intro; apply on_task_finished_S|]. apply fpres_otf_body; assumption.
+      + eapply fpres_ext; [intro; apply notify_user_S|]. apply fpres_nu_body; assumption.
+      + eapply fpres_ext; [intro; apply engine_reacts_S|]. apply fpres_er_body; assumption.
+      + eapply fpres_ext; [intro; apply sched_fire_event_S'|]. apply fpres_sfe_body; assumption.
+      + eapply fpres_ext; [intro; apply logic_fire_event_S|]. apply fpres_lfe_body; assumption.
+  Qed.
+End Frame.
+
+(* ---- instance: the net only grows ---- *)
 
 (* no transition, place, API object or callback table entry ever disappears; the callback
    table stays aligned with the transition list *)
@@ -546,44 +870,6 @@ Proof. intro s. unfold le_ns. repeat split; auto. Qed.
 Lemma le_ns_trans : forall a b c, le_ns a b -> le_ns b c -> le_ns a c.
 Proof. unfold le_ns. intros a b c H1 H2. intuition lia. Qed.
 
-Definition pres {A} (m : NM A) : Prop := forall s a s', m s = Ok (a, s') -> le_ns s s'.
-
-Lemma nbind_inv : forall A B (m : NM A) (k : A -> NM B) s b s',
-    nbind m k s = Ok (b, s') -> exists a s1, m s = Ok (a, s1) /\ k a s1 = Ok (b, s').
-Proof.
-  intros A B m k s b s' H. unfold nbind in H.
-  destruct (m s) as [[a s1]| | |]; try discriminate. eauto.
-Qed.
-
-Lemma pres_ext : forall A (m m' : NM A), (forall s, m s = m' s) -> pres m' -> pres m.
-Proof. intros A m m' E H s a s' H1. rewrite E in H1. eauto. Qed.
-
-Lemma pres_ret : forall A (a : A), pres (nret a).
-Proof. intros A a s a' s' H. inversion H. apply le_ns_refl. Qed.
-
-Lemma pres_get : pres nget.
-Proof. intros s a s' H. inversion H. apply le_ns_refl. Qed.
-
-Lemma pres_fail : forall A (r : res A), pres (nfail r).
-Proof. intros A r s a s' H. unfold nfail in H. destruct r; inversion H. apply le_ns_refl. Qed.
-
-Lemma pres_bind : forall A B (m : NM A) (k : A -> NM B),
-    pres m -> (forall a, pres (k a)) -> pres (nbind m k).
-Proof.
-  intros A B m k Hm Hk s b s' H. apply nbind_inv in H. destruct H as (a & s1 & H1 & H2).
-  eapply le_ns_trans; [eapply Hm|eapply Hk]; eauto.
-Qed.
-
-Lemma pres_mod : forall f, (forall s, le_ns s (f s)) -> pres (nmod f).
-Proof. intros f Hf s a s' H. inversion H. apply Hf. Qed.
-
-Lemma pres_nfor : forall A (l : list A) f, (forall x, pres (f x)) -> pres (nfor l f).
-Proof.
-  intros A l f Hf. induction l as [|x l IH]; cbn [nfor].
-  - apply pres_ret.
-  - apply pres_bind; auto.
-Qed.
-
 Lemma upd_length : forall A n (f : A -> A) l, List.length (upd n f l) = List.length l.
 Proof. intros A n f l. revert n. induction l as [|x l IH]; intros [|n]; cbn; auto. Qed.
 
@@ -598,217 +884,21 @@ Ltac le_ns_solve :=
   unfold le_ns; cbn;
   rewrite ?fold_upd_length, ?upd_length, ?map_length, ?app_length; cbn; repeat split; lia.
 
-Ltac pres_step :=
-  match goal with
-  | |- pres (nbind _ _) => apply pres_bind; [| intro]
-  | |- pres (nret _) => apply pres_ret
-  | |- pres nget => apply pres_get
-  | |- pres (nfail _) => apply pres_fail
-  | |- pres (nfor _ _) => apply pres_nfor; intro
-  | |- pres (nmod _) => apply pres_mod; intro; le_ns_solve
-  | |- pres (if ?b then _ else _) => destruct b
-  | |- pres (match ?x with _ => _ end) => destruct x
-  | |- pres _ => solve [auto with pres]
-  end.
-Ltac pres_tac := cbv zeta; repeat pres_step.
+Ltac prim_solve :=
+  intros; try (match goal with |- fpres _ _ => intros ? ? ? HH; inversion HH; subst; clear HH end);
+  le_ns_solve.
 
-Lemma pres_create_place : pres create_place.
-Proof. intros s a s' H. inversion H. le_ns_solve. Qed.
-Lemma pres_create_transition : pres create_transition.
-Proof. intros s a s' H. inversion H. le_ns_solve. Qed.
-Lemma pres_add_input : forall p t, pres (add_input p t).
-Proof. intros. unfold add_input. pres_tac. Qed.
-Lemma pres_add_output : forall p t, pres (add_output p t).
-Proof. intros. unfold add_output. pres_tac. Qed.
-Lemma pres_add_callback : forall t c, pres (add_callback t c).
-Proof. intros. unfold add_callback. pres_tac. Qed.
-Lemma pres_place_add : forall p, pres (place_add p).
-Proof. intros. unfold place_add. pres_tac. Qed.
-Lemma pres_fire_trans : forall t, pres (fire_trans t).
-Proof. intros. unfold fire_trans. pres_tac. Qed.
-Lemma pres_remove_place : forall p, pres (remove_place p).
-Proof. intros. unfold remove_place. pres_tac. Qed.
-Lemma pres_fresh_uuid : pres fresh_uuid.
-Proof. intros s a s' H. inversion H. le_ns_solve. Qed.
-Lemma pres_new_api : forall a, pres (new_api a).
-Proof. intros a0 s a s' H. inversion H. le_ns_solve. Qed.
-Lemma pres_get_api : forall i, pres (get_api i).
+Theorem le_ns_frame : frame_ok le_ns.
 Proof.
-  intros i s a s' H. unfold get_api in H. destruct (nth_error (ns_apis s) i); inversion H.
-  apply le_ns_refl.
+  constructor; first [exact le_ns_refl | exact le_ns_trans | solve [prim_solve]].
 Qed.
-Lemma pres_set_api : forall i f, pres (set_api i f).
-Proof. intros. unfold set_api. pres_tac. Qed.
-Lemma pres_nlog : forall es, pres (nlog es).
-Proof. intros. unfold nlog. pres_tac. Qed.
-Lemma pres_pop_cb : forall i, pres (pop_cb i).
-Proof. intros. unfold pop_cb. pres_tac. Qed.
-#[local] Hint Resolve pres_create_place pres_create_transition pres_add_input pres_add_output
-  pres_add_callback pres_place_add pres_fire_trans pres_remove_place pres_fresh_uuid pres_new_api
-  pres_get_api pres_set_api pres_nlog pres_pop_cb : pres.
 
-Lemma pres_generate_service : forall n ins at_ ctx t1 t2 il,
-    pres (generate_service n ins at_ ctx t1 t2 il).
-Proof. intros. unfold generate_service. pres_tac. Qed.
-Lemma pres_generate_empty_parallel_loop : forall t1 t2, pres (generate_empty_parallel_loop t1 t2).
-Proof. intros. unfold generate_empty_parallel_loop. pres_tac. Qed.
-#[local] Hint Resolve pres_generate_service pres_generate_empty_parallel_loop : pres.
+Definition pres {A} (m : NM A) : Prop := fpres le_ns m.
 
-Section GenPres.
-  Variable tasks : list task.
-
-  Lemma pres_gen_go : forall gs n ctx tn pre first last il,
-      (forall ctx tn path s t1 t2 il, pres (gs ctx tn path s t1 t2 il)) ->
-      forall l i prev acc, pres (gen_go gs n ctx tn pre first last il i l prev acc).
-  Proof.
-    intros gs n ctx tn pre first last il Hgs. induction l as [|s r IH]; intros i prev acc.
-    - cbn [gen_go]. pres_tac.
-    - cbn [gen_go]. fold (gen_go gs n ctx tn pre first last il). pres_tac.
-  Qed.
-
-  Lemma pres_gen_calls : forall gtc ctx tn path t1 sync il,
-      (forall c at_ ctx t1 t2 il, pres (gtc c at_ ctx t1 t2 il)) ->
-      forall l i, pres (gen_calls gtc ctx tn path t1 sync il i l).
-  Proof.
-    intros gtc ctx tn path t1 sync il Hg. induction l as [|c r IH]; intro i.
-    - cbn [gen_calls]. pres_tac.
-    - cbn [gen_calls]. fold (gen_calls gtc ctx tn path t1 sync il). pres_tac.
-  Qed.
-  Hint Resolve pres_gen_go pres_gen_calls : pres.
-
-  Lemma pres_gstmt_body : forall gss gtc,
-      (forall ctx tn pre ss first last il, pres (gss ctx tn pre ss first last il)) ->
-      (forall c at_ ctx t1 t2 il, pres (gtc c at_ ctx t1 t2 il)) ->
-      forall ctx tn path s t1 t2 il, pres (gstmt_body gss gtc ctx tn path s t1 t2 il).
-  Proof.
-    intros gss gtc H1 H2 ctx tn path s t1 t2 il. unfold gstmt_body. pres_tac.
-  Qed.
-
-  Lemma pres_gtc_body : forall gss,
-      (forall ctx tn pre ss first last il, pres (gss ctx tn pre ss first last il)) ->
-      forall c at_ ctx t1 t2 il, pres (gtc_body tasks gss c at_ ctx t1 t2 il).
-  Proof. intros gss H1 c at_ ctx t1 t2 il. unfold gtc_body. pres_tac. Qed.
-
-  Theorem pres_generate : forall f,
-      (forall ctx tn pre ss first last il, pres (generate_statements tasks f ctx tn pre ss first last il)) /\
-      (forall ctx tn path s t1 t2 il, pres (generate_stmt tasks f ctx tn path s t1 t2 il)) /\
-      (forall c at_ ctx t1 t2 il, pres (generate_task_call tasks f c at_ ctx t1 t2 il)).
-  Proof.
-    induction f as [|f (IH1 & IH2 & IH3)].
-    - split; [|split]; intros; intros ? ? ? HH; discriminate HH.
-    - split; [|split]; intros.
-      + eapply pres_ext; [intro; apply generate_statements_S|]. apply pres_gen_go. exact IH2.
-      + eapply pres_ext; [intro; apply generate_stmt_S|]. apply pres_gstmt_body; assumption.
-      + eapply pres_ext; [intro; apply generate_task_call_S|]. apply pres_gtc_body; assumption.
-  Qed.
-End GenPres.
-
-Section SchedPres.
-  Variable tasks : list task.
-  Variable env : envcfg.
-
-  Lemma pres_new_test_or_uuid : forall b, pres (new_test_or_uuid b).
-  Proof. intro b. unfold new_test_or_uuid. pres_tac. Qed.
-  Lemma pres_set_counters : forall u d, pres (set_counters u d).
-  Proof. intros. unfold set_counters. pres_tac. Qed.
-  Hint Resolve pres_new_test_or_uuid pres_set_counters : pres.
-  Lemma pres_substitute_loop_indexes : forall ai, pres (substitute_loop_indexes tasks ai).
-  Proof. intro ai. unfold substitute_loop_indexes. pres_tac. Qed.
-  Lemma pres_get_loop_limit : forall lim ctx, pres (get_loop_limit env lim ctx).
-  Proof. intros. unfold get_loop_limit. pres_tac. Qed.
-  Lemma pres_check_expression : forall e ctx, pres (check_expression env e ctx).
-  Proof. intros. unfold check_expression. pres_tac. Qed.
-  Hint Resolve pres_substitute_loop_indexes pres_get_loop_limit pres_check_expression : pres.
-
-  Lemma pres_parloop_generate : forall v lim ctx c csite ph t1 t2,
-      pres (parloop_generate tasks env v lim ctx c csite ph t1 t2).
-  Proof.
-    intros. unfold parloop_generate.
-    pose proof (proj2 (proj2 (pres_generate tasks 200))) as Hg.
-    pres_tac.
-  Qed.
-  Hint Resolve pres_parloop_generate : pres.
-
-  Lemma pres_each_with : forall rc index, (forall c, pres (rc c)) ->
-      forall h i, pres (each_with rc index h i).
-  Proof.
-    intros rc index Hrc. induction h as [|h IH]; intro i.
-    - cbn [each_with]. pres_tac.
-    - cbn [each_with]. fold (each_with rc index). pres_tac.
-  Qed.
-  Hint Resolve pres_each_with : pres.
-
-  Lemma pres_scan_with : forall rc snap, (forall c, pres (rc c)) ->
-      forall g index, pres (scan_with rc snap g index).
-  Proof.
-    intros rc snap Hrc. induction g as [|g IH]; intro index.
-    - cbn [scan_with]. pres_tac.
-    - cbn [scan_with]. fold (scan_with rc snap). pres_tac.
-  Qed.
-
-  Lemma pres_run_cb_body : forall ev_ ots otf oss osf sfe,
-      pres ev_ -> (forall a, pres (ots a)) -> (forall a, pres (otf a)) ->
-      (forall a, pres (oss a)) -> (forall a, pres (osf a)) -> (forall e, pres (sfe e)) ->
-      forall c, pres (run_cb_body tasks env ev_ ots otf oss osf sfe c).
-  Proof.
-    intros ev_ ots otf oss osf sfe H1 H2 H3 H4 H5 H6 c. unfold run_cb_body, await_and_fire.
-    destruct c; try solve [pres_tac].
-    apply pres_ext with (m' := parloop_generate tasks env v lim ctx c csite ph t1 t2 ;;~ ev_);
-      [intro; apply parloop_then_eq|]. pres_tac.
-  Qed.
-
-  Lemma pres_ots_body : forall nu, (forall k a b, pres (nu k a b)) -> forall ai, pres (ots_body tasks nu ai).
-  Proof. intros nu H ai. unfold ots_body. pres_tac. Qed.
-  Lemma pres_oss_body : forall nu, (forall k a b, pres (nu k a b)) -> forall ai, pres (oss_body tasks nu ai).
-  Proof. intros nu H ai. unfold oss_body, rebind_uuid. pres_tac. Qed.
-  Lemma pres_otf_body : forall nu, (forall k a b, pres (nu k a b)) -> forall ai, pres (otf_body nu ai).
-  Proof. intros nu H ai. unfold otf_body. pres_tac. Qed.
-
-  Lemma pres_notify_each : forall er k ai, (forall k a, pres (er k a)) ->
-      forall h i, pres (notify_each er k ai h i).
-  Proof.
-    intros er k ai Her. induction h as [|h IH]; intro i.
-    - cbn [notify_each]. pres_tac.
-    - cbn [notify_each]. fold (notify_each er k ai). pres_tac.
-  Qed.
-  Hint Resolve pres_notify_each : pres.
-  Lemma pres_nu_body : forall er, (forall k a, pres (er k a)) -> forall k ai b, pres (nu_body er k ai b).
-  Proof. intros er H k ai b. unfold nu_body. pres_tac. Qed.
-  Lemma pres_er_body : forall sfe, (forall e, pres (sfe e)) -> forall k ai, pres (er_body env sfe k ai).
-  Proof. intros sfe H k ai. unfold er_body. pres_tac. Qed.
-  Lemma pres_sfe_body : forall lfe, (forall e, pres (lfe e)) -> forall ev, pres (sfe_body lfe ev).
-  Proof. intros lfe H ev. unfold sfe_body. pres_tac. Qed.
-  Lemma pres_lfe_body : forall ev_, pres ev_ -> forall ev, pres (lfe_body ev_ ev).
-  Proof. intros ev_ H ev. unfold lfe_body. pres_tac. Qed.
-
-  (* every function of the mutual block only lets the net grow *)
-  Theorem pres_block : forall f,
-      pres (evaluate tasks env f) /\
-      (forall c, pres (run_cb tasks env f c)) /\
-      (forall a, pres (on_task_started tasks env f a)) /\
-      (forall a, pres (on_service_started tasks env f a)) /\
-      (forall a, pres (on_service_finished tasks env f a)) /\
-      (forall a, pres (on_task_finished tasks env f a)) /\
-      (forall k a b, pres (notify_user tasks env f k a b)) /\
-      (forall k a, pres (engine_reacts tasks env f k a)) /\
-      (forall ev, pres (sched_fire_event tasks env f ev)) /\
-      (forall ev, pres (logic_fire_event tasks env f ev)).
-  Proof.
-    induction f as [|f (I1 & I2 & I3 & I4 & I5 & I6 & I7 & I8 & I9 & I10)].
-    - repeat (split; [intros; intros ? ? ? HH; discriminate HH|]). intros; intros ? ? ? HH; discriminate HH.
-    - split; [|split; [|split; [|split; [|split; [|split; [|split; [|split; [|split]]]]]]]]; intros.
-      + intros s a s' HH. rewrite evaluate_S in HH. eapply pres_scan_with; eauto.
-      + eapply pres_ext; [intro; apply run_cb_S|]. apply pres_run_cb_body; assumption.
-      + eapply pres_ext; [intro; apply on_task_started_S|]. apply pres_ots_body; assumption.
-      + eapply pres_ext; [intro; apply on_service_started_S|]. apply pres_oss_body; assumption.
-      + eapply pres_ext; [intro; apply on_service_finished_S|]. apply I7.
-      + eapply pres_ext; [intro; apply on_task_finished_S|]. apply pres_otf_body; assumption.
-      + eapply pres_ext; [intro; apply notify_user_S|]. apply pres_nu_body; assumption.
-      + eapply pres_ext; [intro; apply engine_reacts_S|]. apply pres_er_body; assumption.
-      + eapply pres_ext; [intro; apply sched_fire_event_S'|]. apply pres_sfe_body; assumption.
-      + eapply pres_ext; [intro; apply logic_fire_event_S|]. apply pres_lfe_body; assumption.
-  Qed.
-End SchedPres.
+Definition pres_generate tasks := frame_generate le_ns_frame tasks.
+Definition pres_block tasks env := frame_block le_ns_frame tasks env.
+Definition pres_parloop_generate tasks env := fpres_parloop_generate le_ns_frame tasks env.
+Definition pres_fire_trans := fr_fire_trans le_ns_frame.
 
 (* =========================================================================== *)
 (* 3. the scan: a pass that ends normally leaves every scanned transition disabled *)
@@ -1331,7 +1421,7 @@ Section Quiescence.
       quiescent s -> quiescent s'.
   Proof.
     intros f s s' H. induction H as [s|s s1 c b s2 H1 IH H]; intros E Hq; [exact Hq|].
-    pose proof (api_reach_le_ns H1) as (L1 & _).
+    pose proof (api_reach_le_ns _ _ _ H1) as (L1 & _).
     pose proof (api_call_le_ns _ _ _ _ _ H) as (L2 & _).
     eapply api_call_keeps_quiescent; [exact H|lia|]. apply IH; [lia|exact Hq].
   Qed.
